@@ -1,4 +1,5 @@
 import Cose.Props.C01
+import Cose.Go.Roundtrip
 /-!
 # C09 — decode then re-encode preserves messages; value round trips are exact
 
@@ -108,5 +109,27 @@ theorem remove_cwt_and_tag (xs : List Cbor) (h4 : xs.length = 4) :
   have e2 : encode (.arr xs) = 0x84 :: encodeList xs := by simp only [encode, h4]; rfl
   rw [e, e2]
   simp [removeTagModel, List.isPrefixOf]
+
+/-! ## value round trip of label maps (header maps, claim maps, keys) -/
+
+/-- **encode then decode returns an equal value**: for every label map with pairwise distinct in-range labels and
+    scalar / list values, presented in any order, decoding the encoding succeeds, has the same number of entries,
+    the same set of labels, and every typed accessor answers as on the original (integers by value whatever their
+    Go kind, byte strings, booleans, text).  The one representable difference is Go-side only: a nil `[]byte` member
+    is CBOR null on the wire and comes back as nil. -/
+theorem label_map_roundtrip (m : CMap) (hok : ∀ kv ∈ m, EntryOk kv) (hnd : (m.map (·.1)).Nodup)
+    (hlen : m.length ≤ Cose.Cbor.maxElems) :
+    ∃ b m', encodeCMap m = some b ∧ decodeCMap b = .ok m' ∧ m'.length = m.length ∧
+      ∀ l, m'.has l = m.has l ∧ getInt (m'.lookup l) = getInt (m.lookup l) ∧
+        getBool (m'.lookup l) = getBool (m.lookup l) ∧ getString (m'.lookup l) = getString (m.lookup l) ∧
+        (m.lookup l ≠ some .bnil → getBytes (m'.lookup l) = getBytes (m.lookup l)) := by
+  obtain ⟨b, m', henc, hdec, hl, hlook⟩ := cmap_roundtrip m hok hnd hlen
+  refine ⟨b, m', henc, hdec, hl, fun l => ?_⟩
+  rw [CMap.has, CMap.has, hlook l]
+  cases h : m.lookup l with
+  | none => exact ⟨rfl, rfl, rfl, rfl, fun _ => rfl⟩
+  | some v =>
+    have hf : Flat v := (hok (l, v) ((lookup_eq_some_iff m l v hnd).mp h)).2
+    exact ⟨rfl, getInt_normV hf, getBool_normV hf, getString_normV hf, fun hn => getBytes_normV hf (fun e => hn (by rw [e]))⟩
 
 end Cose.Props.C09
